@@ -168,7 +168,11 @@ def call_method_hook(eng, st, recv, name, pos, kw):
         res = []
         for k, s2, v in outs:
             if k == "ok" and isinstance(v, VObj):
-                # a consequence of that post-condition, made explicit (obliged, then assumed): where a containing group landed
+                # a consequence of that post-condition, made explicit (obliged, then assumed): where a containing group landed.
+                # The index maps the applied post-condition speaks about are the LATEST `filter` ghost of the state after the call
+                # (the one installed above, or - when contracts/c02_remove_reactions.py is loaded, which gives this callee a
+                # call-site form with its own skolem maps - the one its result builder installed)
+                s_, d_, _n = [g_ for k_, g_ in s2.ghost.items() if isinstance(k_, tuple) and k_[0] == "filter"][-1]
                 rn, re_ = L(s2, v)
                 mem = eng.heap_arr(st, "_members")
                 i = qv("gi")
